@@ -12,6 +12,11 @@ hand-written hypotheses are each backed by a kernel-checked counterexample (Arca
 import Arca.Proofs.LoopSafe
 import Arca.Proofs.LoopSafeCex
 import Arca.Proofs.LoopInv
+import Arca.Gen.Recover
+import Arca.Gen.Sinks
+import Arca.Gen.Lifecycle
+import Arca.Gen.Builtins
+import Arca.Expected.C07
 
 namespace Arca.Props.C07
 open Arca.Model
@@ -47,5 +52,64 @@ theorem dead_only_by_panic (P : Prepared) (fns : Fns) (ord : Order) (s : LoopSta
 
 /-- non-vacuity: `WF2` is satisfiable by a workflow with a dependency-group node -/
 example : SafeCex.PC.WF2 := SafeCex.PC_wf2
+
+/-! ## The tie of "evaluation faults become errors" to the source
+
+The model's `eval_failure_is_reported` covers every outcome of an evaluation that RETURNS.  A Go panic during evaluation is
+turned into a returned error by the deferred recover handler of `resolveExpressions`; that step is outside the model and is
+tied to the code here, over the regenerated tables `Arca.Gen.recoverSites / recoverAsserts / runAsserts / builtinSinks`:
+
+* the handler exists, and nothing inside a recover handler (anywhere in the engine library) asserts a type on the recovered
+  value without comma-ok - `recover()` returns whatever was passed to `panic`, which for reflect misuse is a plain string,
+  so `r.(error)` would itself panic inside the handler, on a goroutine nobody recovers;
+* the unchecked type assertions of the run loop are the ones justified in Arca/Expected/C07.lean;
+* what recover cannot catch ("fatal error: out of memory") is kept away by range checks inside the built-ins: every integer
+  parameter that reaches a library call as a size-like argument is guarded by a check on that parameter ALONE. -/
+
+/-- No type assertion without comma-ok inside a deferred recover handler or on a value produced by `recover()`, in any
+    non-test file of the engine library. -/
+theorem no_unchecked_assertion_on_recovered_value :
+    Arca.Gen.recoverAsserts.filter (fun a => !a.2.2.2.2) = [] := by decide
+
+/-- `resolveExpressions` (every frame of the recursion) defers a recover handler. -/
+theorem resolveExpressions_recovers :
+    ("workflow/workflow.go", "loopState.resolveExpressions") ∈ Arca.Gen.recoverSites := by decide
+
+/-- The recover handlers of the engine library are the two that were reviewed. -/
+theorem recover_sites_pinned : Arca.Gen.recoverSites = Arca.Expected.C07.recoverSites := by rfl
+
+/-- The unchecked type assertions of workflow/workflow.go are exactly the reviewed ones (all on containers the run loop
+    allocated itself, none on run-time data). -/
+theorem run_loop_unchecked_assertions_pinned :
+    Arca.Gen.runUncheckedAsserts = Arca.Expected.C07.runUncheckedAsserts := by decide
+
+/-- The integer parameters of built-in handlers that flow into library calls are the reviewed ones. -/
+theorem builtin_sinks_pinned : Arca.Gen.builtinSinks = Arca.Expected.C07.builtinSinks := by rfl
+
+/-- Every integer parameter of a built-in that reaches a library call is either a plain value there or range-checked, before
+    the call, by a condition that mentions no other parameter or local variable (so it holds for every value of the other
+    arguments). -/
+theorem numeric_sink_arguments_guarded :
+    ∀ r ∈ Arca.Gen.builtinSinks, (r.2.1, r.2.2.1) ∈ Arca.Expected.C07.valueSinks ∨ r.2.2.2.2.2 ≠ [] := by decide
+
+/-- floatToFormattedString: the precision handed to strconv.FormatFloat is checked against exactly the declared parameter
+    range `[-1, maxFormatPrecision]`, whatever the format is, and that bound is small (the up-front allocation of FormatFloat
+    is `precision + 4` bytes). -/
+theorem format_float_precision_guarded_for_every_format :
+    (∃ r ∈ Arca.Gen.builtinSinks, r.1 = "floatToFormattedString" ∧ r.2.1 = "strconv.FormatFloat" ∧ r.2.2.1 = 2 ∧
+        r.2.2.2.1 = "precision" ∧ r.2.2.2.2.2 = ["precision < -1 || precision > maxFormatPrecision"]) ∧
+    (∃ b ∈ Arca.Gen.builtins, b.id = "floatToFormattedString" ∧
+        b.params[2]? = some "int[schema.PointerTo[int64](-1),schema.PointerTo[int64](maxFormatPrecision)]") ∧
+    (∃ c ∈ Arca.Gen.builtinGuardBounds, c.1 = "maxFormatPrecision" ∧ c.2 ≤ 1000000) := by
+  refine ⟨?_, ?_, ?_⟩ <;> decide
+
+/-- Every input field of every lifecycle stage of both step kinds is a position at which the `evalpos` stream places
+    faulty expressions. -/
+theorem positions_cover_lifecycle_inputs :
+    ∀ row ∈ Arca.Gen.pluginStages ++ Arca.Gen.foreachStages, ∀ f ∈ row.inputFields,
+      f ∈ Arca.Expected.C07.coveredInputFields := by decide
+
+/-- non-vacuity of the tables: there is a recover site, there are run-loop assertions, there is a guarded sink -/
+example : Arca.Gen.recoverSites ≠ [] ∧ Arca.Gen.runUncheckedAsserts ≠ [] ∧ Arca.Gen.builtinSinks ≠ [] := by decide
 
 end Arca.Props.C07
